@@ -345,7 +345,14 @@ where
         log!("{}: {:?}", "Token ahead".paint(LOG), &next_token);
 
         loop {
-            let action = self.definition.actions(state, next_token.kind)[0];
+            // A custom lexer may return a token which is not expected in the
+            // current state. There are no actions for it.
+            let action = self
+                .definition
+                .actions(state, next_token.kind)
+                .first()
+                .copied()
+                .unwrap_or(Action::Error);
 
             match action {
                 Action::Shift(state_id) => {
